@@ -313,6 +313,7 @@ def rule_space(ctx, rule):
     from ..microeval import run_function, module_value, call_value, Raised
     probes = ["a b", "a%20b", "a\u00a0b", "a%C2%A0b", "%E3%80%80", "a\u3000", "a%E2%80%A8b%41", "a b%2Fc", "%20 ", "a\tb%09c", "a\nb", " a%41 ", "50%25 off", "x%E2%80%83y z"]
     site_u = q.site(ref.node)
+    table_cells = []
     try:
         for text in probes:
             try:
@@ -324,6 +325,7 @@ def rule_space(ctx, rule):
             ws = _re2.search(r"\s", got)
             from urllib.parse import unquote_to_bytes as _utb
             kept = _utb(got) == _utb(text)  # the fully decoded content is the same: nothing lost, nothing invented
+            table_cells.append(("unquote(%r, normalize_space=True) -> %r" % (text, got), ws is None and kept))
             ctx.ob(rule, "table/unquote/%r" % text, ws is None and kept,
                    "unquote(%r, normalize_space=True) gives %r: %s" % (text, got, "a raw whitespace character is left (it is stripped or split on by the next pass)" if ws else "other characters changed"), site_u, witness=text,
                    sample="unquote(%r, normalize_space=True) -> %r" % (text, got) if text in ("a%C2%A0b", "a b%2Fc") else None)
@@ -337,6 +339,7 @@ def rule_space(ctx, rule):
                 ctx.ob(rule, "table/%s/%r" % (name, text), _re2.search(r"\s", got) is None, "%s(%r) gives %r: a raw whitespace character is left" % (name, text, got), site_u, witness=text)
     except Unknown as e:
         ctx.undecided(rule, "unquote not interpretable: %s" % e)
+        table_cells = []
     ex = P.Extractor(ctx.repo, atomic={"ural.quote._generate_unquoted_parts"})
     rets = [r for r in ex.function(ref) if r.kind == "return"]
     ctx.require_instances(rule, len(rets), 1, "return paths of unquote")
@@ -383,7 +386,7 @@ def rule_space(ctx, rule):
                ("quote.unquote only rewrites the ASCII space on the path [%s]: a decoded U+00A0 / U+3000 stays raw and is stripped by the next cleaning pass (canonicalize_url('http://a.com/x%%C2%%A0') is not idempotent)" % condtxt) if only_ascii else
                ("quote.unquote returns its argument without the whitespace -> escape rewrite on the path [%s]" % condtxt),
                q.site(r.node), witness="http://a.com/x%C2%A0" if only_ascii else "a b",
-               sample="return path [%s] -> %s" % (condtxt, P.show(t, maxdepth=5)))
+               sample="return path [%s] -> %s" % (condtxt, P.show(t, maxdepth=5)), cells=(lambda: table_cells) if len(table_cells) == len(probes) else None)
 
 
 def rule_hex_table(ctx, rule):
